@@ -115,65 +115,79 @@ def d4_mean(chk, repo):
     rets = [r for r in v.returns() if r.value is not None]
     full = v.spec("self.array.mean(axis=tuple(range(self.mesh.region.ndim)))")
     fulls = [r for r in rets if v.eq(v.ev.term(r.value, at=r), full)]
-    conds_ok = 0
-    for r in fulls:
-        # two different returns: one exactly for `direction is None`, one for an explicit list of all dims (reach
-        # conditions on the CFG, whatever the nesting)
-        if reached_iff(v, r, v.spec("direction is None")):
-            conds_ok |= 1
-        elif reached_implies(v, r, v.spec("direction is not None and sorted(direction) == sorted(self.mesh.region.dims)")) and \
-                implies_reached(v, v.spec("direction is not None and isinstance(direction, (tuple, list)) and "
-                                          "len(direction) == len(set(direction)) and "
-                                          "sorted(direction) == sorted(self.mesh.region.dims)"), r):
-            conds_ok |= 2
-    chk.ob("field.Field.mean::all-directions", conds_ok == 3, "C06.D4",
-           "mean() and mean(all dims) must both be array.mean over every spatial axis", v.f)
+    # the returns of the full mean together: each is reached only for `direction is None` or an explicit list of all dims
+    # (reach conditions on the CFG, whatever the nesting and however many returns there are), and both cases lead to one
+    none_c = v.spec("direction is None")
+    all_c = v.spec("direction is not None and sorted(direction) == sorted(self.mesh.region.dims)")
+    all_full = v.spec("direction is not None and isinstance(direction, (tuple, list)) and "
+                      "len(direction) == len(set(direction)) and sorted(direction) == sorted(self.mesh.region.dims)")
+    only = bool(fulls) and all(reached_implies(v, r, v.ev._bool("or", [none_c, all_c])) for r in fulls)
+    covers_none = any(implies_reached(v, none_c, r) for r in fulls)
+    covers_all = any(implies_reached(v, all_full, r) for r in fulls)
+    chk.ob("field.Field.mean::all-directions", only and covers_none and covers_all, "C06.D4",
+           f"mean() and mean(all dims) must both be array.mean over every spatial axis, and nothing else may be "
+           f"(only for these: {only}; None covered: {covers_none}; all dims covered: {covers_all})", v.f)
     news = cm.returned_news(v)
     a = v.spec("self.mesh.region._dim2index(direction)")
-    single = [(r, x) for r, x in news if x.get("value") is not None and v.eq(x["value"], v.spec("self.array.mean(axis=a)", env={"a": a}))]
-    ok = len(single) == 1 and v.eq(single[0][1].get("mesh"), v.spec("self.mesh.sel(direction)"))
-    chk.ob("field.Field.mean::single-direction", ok, "C06.D4",
-           "mean(direction) must be array.mean(axis=_dim2index(direction)) on self.mesh.sel(direction)", v.f,
-           single[0][0] if single else None)
-    # several directions
-    loops = [s for s in v.stmts() if isinstance(s, ast.For)]
-    ok = False
-    det = "no loop over the requested directions"
-    if len(loops) == 1:
-        lp = loops[0]
-        it = v.term(lp.iter, at=lp)
-        d = v.ctx.mk(("iter", ()), (v.spec("direction"),))
-        i = v.ctx.mk(("index",), (v.spec("direction"),))
-        mesh_step = axis_step = False
-        for s in lp.body:
-            if isinstance(s, ast.Assign) and isinstance(s.targets[0], ast.Name):
-                t = v.term(s.value, at=s)
-                c = decode_call(v.ctx, t)
-                if c and c[0] in ("Mesh.sel", ".sel") and len(c[1]) == 2 and v.eq(c[1][1], d):
-                    mem = phi_members(v.ctx, c[1][0])
-                    mesh_step = any(v.eq(m_, v.spec("self.mesh")) for m_ in mem)
-            if isinstance(s, ast.Assign) and isinstance(s.targets[0], ast.Subscript):
-                idx = v.ev._index(s.targets[0].slice, v.cfg.node(s), None)
-                val = v.term(s.value, at=s)
-                axis_step = v.eq(idx, i) and v.eq(val, v.spec("self.mesh.region._dim2index(d)", env={"d": d}))
-        ok = v.eq(it, v.spec("enumerate(direction)")) and mesh_step and axis_step
-        det = f"mesh reduced step by step: {mesh_step}; axis i = index of direction i in the ORIGINAL mesh: {axis_step}"
-    chk.ob("field.Field.mean::several-directions", ok, "C06.D4", det, v.f, loops[0] if loops else None)
-    multi = [(r, x) for r, x in news if (r, x) not in single]
-    okm = False
-    for r, x in multi:
+    d = v.ctx.mk(("iter", ()), (v.spec("direction"),))
+    a_each = v.spec("self.mesh.region._dim2index(d)", env={"d": d})
+    # every constructed result: the alternatives of its mesh and of the axis / axes of the reduction, whatever the layout
+    # (one constructor per case, or one constructor fed by variables that were set per case)
+    single_ok = multi_ok = False
+    bad = []
+    single_site = multi_site = None
+    loops = [s_ for s_ in v.stmts() if isinstance(s_, ast.For)]
+    for r, x in news:
         c = decode_call(v.ctx, x.get("value")) if x.get("value") is not None else None
-        if c and c[0] == ".mean" and v.eq(c[1][0], v.spec("self.array")) and "axis" in c[2]:
-            bases = strip_stores(v.ctx, c[2]["axis"])
-            okm = all((decode_call(v.ctx, b) or ("",))[0] == "np.zeros" for b in bases)
-            for b in bases:
-                cb = decode_call(v.ctx, b)
-                if cb and cb[0] == "np.zeros":
-                    dt = cb[2].get("dtype")
-                    chk.ob("field.Field.mean::axis-numbers-are-integers", dt is not None and is_sym(v.ctx, dt, "int"), "C06.D4",
-                           f"the axis numbers are collected in {v.show(b)}: numpy's default float64 is refused as an axis "
-                           "(TypeError for every mean over several directions)", v.f, r)
-    chk.ob("field.Field.mean::several-directions-reduction", okm, "C06.D4",
+        if not (c and c[0] == ".mean" and v.eq(c[1][0], v.spec("self.array")) and "axis" in c[2] and len(c[1]) == 1):
+            bad.append(f"`{v.src(r)[:50]}`: value is not self.array.mean(axis=...)")
+            continue
+        kinds_axis = set()
+        for m_ in phi_members(v.ctx, c[2]["axis"]):
+            if v.eq(m_, a):
+                kinds_axis.add("single")
+                continue
+            calls = v.ctx.find_atoms(m_, lambda h, ar: h[0] == "call" and str(h[1]).endswith("_dim2index"))
+            if calls and all(v.eq(v.ctx.var(ca), a_each) for ca in calls):
+                kinds_axis.add("multi")
+                for b_ in strip_stores(v.ctx, m_):
+                    cb = decode_call(v.ctx, b_)
+                    if cb and cb[0] == "np.zeros":
+                        dt = cb[2].get("dtype")
+                        chk.ob("field.Field.mean::axis-numbers-are-integers", dt is not None and is_sym(v.ctx, dt, "int"), "C06.D4",
+                               f"the axis numbers are collected in {v.show(b_)}: numpy's default float64 is refused as an axis "
+                               "(TypeError for every mean over several directions)", v.f, r)
+            elif calls:
+                bad.append(f"axis {v.show(m_)[:100]}: axis numbers must be looked up in the ORIGINAL mesh, one per requested direction")
+            # (an alternative without any axis look-up is the empty start value of the collection)
+        kinds_mesh = set()
+        for m_ in phi_members(v.ctx, x.get("mesh")) if x.get("mesh") is not None else []:
+            if v.eq(m_, v.spec("self.mesh.sel(direction)")):
+                kinds_mesh.add("single")
+                continue
+            cm_ = decode_call(v.ctx, m_)
+            if cm_ and cm_[0] in ("Mesh.sel", ".sel") and len(cm_[1]) == 2 and v.eq(cm_[1][1], d) and \
+                    all(v.eq(y, v.spec("self.mesh")) or (v.ctx.head_of(y) or ("",))[0] == "carried"
+                        for y in phi_members(v.ctx, cm_[1][0])):
+                kinds_mesh.add("multi")
+            elif v.eq(m_, v.spec("self.mesh")):
+                kinds_mesh.add("start")
+            else:
+                bad.append(f"mesh {v.show(m_)[:100]}: neither self.mesh.sel(direction) nor the step-by-step reduction")
+        if "single" in kinds_axis and "single" in kinds_mesh:
+            single_ok, single_site = True, r
+        if "multi" in kinds_axis and "multi" in kinds_mesh:
+            multi_ok, multi_site = True, r
+        if "start" in kinds_mesh and "multi" not in kinds_mesh:
+            bad.append("the unreduced mesh is handed to a directional mean")
+    chk.ob("field.Field.mean::single-direction", single_ok and not bad, "C06.D4",
+           "mean(direction) must be array.mean(axis=_dim2index(direction)) on self.mesh.sel(direction)" +
+           ("; " + "; ".join(bad) if bad else ""), v.f, single_site)
+    chk.ob("field.Field.mean::several-directions", multi_ok and not bad, "C06.D4",
+           "over several directions the result mesh is reduced step by step (mesh = mesh.sel(d) for every requested d) and the "
+           "axes are the indices of the requested directions in the ORIGINAL mesh" + ("; " + "; ".join(bad) if bad else ""),
+           v.f, multi_site or (loops[0] if loops else None))
+    chk.ob("field.Field.mean::several-directions-reduction", multi_ok, "C06.D4",
            "the reduction must be array.mean(axis=tuple(the collected axes))", v.f)
     okg, det = v.guard("len(direction) != len(set(direction))", exc=("ValueError",), before=loops[0] if loops else "exit")
     chk.ob("field.Field.mean::duplicates-refused", okg, "C06.D4", det, v.f)
